@@ -215,6 +215,10 @@ class World:
     def instance(self, S0=None):
         S0 = S0 or self.S0
         s = copy.copy(S0)
+        # per-path isolation: plain containers held by the instance are copied, synchronisation objects shared
+        for k, v in list(S0.__dict__.items()):
+            if isinstance(v, (dict, list, set)):
+                setattr(s, k, copy.deepcopy(v))
         s.default_algo_list = list(self.defaults)
         for n in LOCK_LISTS:
             for suf in ("_th", "_mp"):
